@@ -192,7 +192,10 @@ func (fx *Fx) hardwired(st *State, fn *types.Func, call *ast.CallExpr, recv *Val
 				st.assume(c.refTypeFact(t, fn.Type().(*types.Signature).Results().At(0).Type()))
 				return []Val{{T: t, S: "Int", GT: fn.Type().(*types.Signature).Results().At(0).Type()}}, true
 			case "Err":
+				// Err is non-nil exactly when Done is closed (no interleaving in the model: the state at this instant)
 				v := fx.freshOfType(st, "ctxerr", fn.Type().(*types.Signature).Results().At(0).Type())
+				c.declareFun("ctx_done", []string{"Iface"}, "Int")
+				st.assume(fmt.Sprintf("(= (not (= (i_tag %s) 0)) (select %s (ctx_done %s)))", v.T, st.heap("CC", "(Array Int Bool)"), recv.T))
 				return []Val{v}, true
 			}
 		}
